@@ -40,6 +40,25 @@ structure HSite where
   arg : String          -- must: provenance class of the first argument (store | msg | const | other | none)
   deriving DecidableEq, Repr
 
+/-- a call of a panic-hosting function from a function that a gRPC query method reaches (round 5): the callee's panic sits behind
+`if !recv.guard(param) { panic }`; `guarded` says the caller tests `guard` on the same argument in a dominating early return -/
+structure QCall where
+  caller : Nat
+  callee : Nat
+  guard : String
+  arg : String
+  guarded : Bool
+  deriving DecidableEq, Repr
+
+/-- a field selection through a pointer-typed field of a query request (round 5): `req.Pagination.Limit` panics when the optional
+`pagination` part is absent, unless a nil test of `req.Pagination` dominates it -/
+structure QDeref where
+  fn : Nat
+  expr : String
+  ptr : String
+  guarded : Bool
+  deriving DecidableEq, Repr
+
 /-- `b` is a callee of `a` -/
 def Graph.edge (g : Graph) (a b : Nat) : Prop := ∃ ts, (a, ts) ∈ g ∧ b ∈ ts
 
@@ -80,6 +99,15 @@ def Reviewed.covers (r : Reviewed) (s : HSite) : Bool :=
 /-- a `Must…` call whose operand is a store read (decoding what the chain itself encoded), a constant, or a call without an
 argument: not steerable by input -/
 def mustOnOwnState (s : HSite) : Bool := s.kind == "must" && (s.arg == "store" || s.arg == "const" || s.arg == "none")
+
+/-- every recorded call `a → f` exists and carries the dominating test -/
+def callsGuarded (qcalls : List QCall) (a f : Nat) : Bool :=
+  qcalls.any (fun c => c.caller == a && c.callee == f) &&
+  (qcalls.filter (fun c => c.caller == a && c.callee == f)).all (fun c => c.guarded && c.guard != "")
+
+/-- executable check: every edge that starts inside the certificate `R` and ends in one of the functions `fs` is a guarded call -/
+def edgesGuarded (g : Graph) (R : Nat) (qcalls : List QCall) (fs : List Nat) : Bool :=
+  g.all fun e => !inSet R e.1 || e.2.all fun b => !fs.contains b || callsGuarded qcalls e.1 b
 
 def nodeName (ns : List Node) (i : Nat) : String := ((ns.find? (·.id == i)).map (·.name)).getD ""
 
